@@ -93,6 +93,7 @@ var declassTable = []struct{ fn, cond, why string }{
 	{"sm2.SignHashed", "rInt.Sign() == 0", "retry decision of the signing loop (r = 0)"},
 	{"sm2.SignHashed", "utils.ConstantTimeCmp(rkBuf[:], nBytes33, 33) == 0", "retry decision of the signing loop (r + k = n)"},
 	{"sm2.SignHashed", "sInt.Sign() == 0", "retry decision of the signing loop (s = 0)"},
+	{"sm2.ensure32Bytes", "i.Bytes()", "byte length of a public output (r, s of SignHashed) — the length of its big.Int encoding"},
 }
 
 // functions cloned per constant value of a bool parameter (the branch on it is resolved in the clone):
@@ -108,6 +109,7 @@ var labelOverride = map[string]string{
 }
 
 type extSpec struct {
+	kind    string // constructor of ExtKind (the executable model of the call in Model/CTIR.lean: stdOracle)
 	leaky   bool
 	setter  bool     // z.Op(args) sets the receiver and returns it; otherwise a query of the receiver
 	results []string // labels of the results
@@ -118,19 +120,25 @@ type extSpec struct {
 // the byte <-> big.Int conversions, which the property does not enumerate: they are reported as
 // observations (Event.obs) and not counted as violations.
 var extTable = map[string]extSpec{
-	"big.Int.ModInverse": {leaky: true, setter: true, results: []string{"H"}},
-	"big.Int.SetBytes":   {leaky: false, setter: true, results: []string{"H"}},
-	"big.Int.Add":        {leaky: false, setter: true, results: []string{"H"}},
-	"big.Int.Sub":        {leaky: false, setter: true, results: []string{"H"}},
-	"big.Int.Mul":        {leaky: false, setter: true, results: []string{"H"}},
-	"big.Int.Mod":        {leaky: false, setter: true, results: []string{"H"}},
-	"big.Int.Bytes":      {leaky: false, results: []string{"H"}},
-	"big.Int.Sign":       {leaky: false, results: []string{"H"}},
+	"big.Int.ModInverse": {kind: "modInverse", leaky: true, setter: true, results: []string{"H"}},
+	"big.Int.SetBytes":   {kind: "setBytes", leaky: false, setter: true, results: []string{"H"}},
+	"big.Int.Add":        {kind: "add", leaky: false, setter: true, results: []string{"H"}},
+	"big.Int.Sub":        {kind: "sub", leaky: false, setter: true, results: []string{"H"}},
+	"big.Int.Mul":        {kind: "mul", leaky: false, setter: true, results: []string{"H"}},
+	"big.Int.Mod":        {kind: "mod", leaky: false, setter: true, results: []string{"H"}},
+	"big.Int.Sign":       {kind: "sign", leaky: false, results: []string{"H"}},
+	// z.Bytes() is translated as  l := ByteLen(z);  b := FillBytes(z, make([]byte, l)):  the length of the
+	// encoding depends on the VALUE, so it is a separate result that must be public (declassified at a
+	// listed site) before it becomes an allocation size; the bytes themselves have a public shape then
+	"big.Int.Bytes":   {kind: "other", leaky: false, results: []string{}}, // never emitted as a call
+	"big.Int.ByteLen": {kind: "byteLen", leaky: false, results: []string{"H"}},
 	// z.FillBytes(buf): arguments (z, buf), result the filled buffer: its length is that of buf (public),
-	// whatever z is — unlike Bytes(), whose length depends on the value
-	"big.Int.FillBytes": {leaky: false, results: []string{"H"}},
-	"io.ReadFull":       {leaky: true, results: []string{"H", "L", "L"}}, // (buffer, n, err)
-	"fmt.Errorf":        {leaky: true, results: []string{"L"}},
+	// whatever z is
+	"big.Int.FillBytes": {kind: "fillBytes", leaky: false, results: []string{"H"}},
+	// io.ReadFull(r, buf): arguments (r, len(buf), position), results (buffer, n, err, next position); the
+	// position is a public variable of the calling function (0 at entry)
+	"io.ReadFull": {kind: "readFull", leaky: true, results: []string{"H", "L", "L", "L"}},
+	"fmt.Errorf":  {kind: "errorf", leaky: true, results: []string{"L"}},
 }
 
 // globals whose value is not computed from a translated initialiser: Lean expression (may use
@@ -801,6 +809,7 @@ type fnTr struct {
 	wr    []ctWrite
 	loops []ast.Node
 	junk  int
+	rdPos int // variable holding the position of the reader (functions that call io.ReadFull), else -1
 }
 
 func (x *fnTr) fail(pos token.Pos, format string, a ...interface{}) { x.t.fail(pos, format, a...) }
@@ -1497,11 +1506,29 @@ func (x *fnTr) extCall(call *ast.CallExpr, key string, sp extSpec, pre *[]string
 		if !ok || len(lv.path) != 0 {
 			x.fail(call.Pos(), "io.ReadFull into something that is not a whole variable")
 		}
-		args = []string{x.expr(call.Args[0], pre), "(.len " + x.expr(call.Args[1], pre) + ")"}
+		if x.rdPos < 0 {
+			x.fail(call.Pos(), "io.ReadFull without a reader position")
+		}
+		args = []string{x.expr(call.Args[0], pre), "(.len " + x.expr(call.Args[1], pre) + ")", ctVar(x.rdPos)}
 		n, e := x.tmp(), x.tmp()
-		*pre = append(*pre, fmt.Sprintf(".ext [%d, %d, %d] %d %s [%s]", lv.v, n, e, id, leaky, strings.Join(args, ", ")))
+		*pre = append(*pre, fmt.Sprintf(".ext [%d, %d, %d, %d] %d %s [%s]", lv.v, n, e, x.rdPos, id, leaky, strings.Join(args, ", ")))
 		x.wr = append(x.wr, ctWrite{root: x.resolve(lv.root), pos: call.Pos()})
 		return []string{ctVar(n), ctVar(e)}
+	case key == "big.Int.Bytes":
+		// l := ByteLen(z); (declassified at a listed site, or left secret: the checker then rejects the
+		// allocation) b := FillBytes(z, make([]byte, l))
+		sel := ast.Unparen(call.Fun).(*ast.SelectorExpr)
+		z := x.hoist(x.expr(sel.X, pre), pre)
+		l := x.tmp()
+		*pre = append(*pre, fmt.Sprintf(".ext [%d] %d false [%s]", l, x.extID("big.Int.ByteLen"), z))
+		if site := x.siteOf2(call); site >= 0 {
+			l2 := x.tmp()
+			*pre = append(*pre, fmt.Sprintf(".declass %d %d %s", l2, site, ctVar(l)))
+			l = l2
+		}
+		b := x.tmp()
+		*pre = append(*pre, fmt.Sprintf(".ext [%d] %d false [%s, (.mk %s (.lit 0))]", b, x.extID("big.Int.FillBytes"), z, ctVar(l)))
+		return []string{ctVar(b)}
 	case key == "big.Int.FillBytes":
 		sel := ast.Unparen(call.Fun).(*ast.SelectorExpr)
 		lv, ok := x.lvalue(call.Args[0], pre)
@@ -1583,6 +1610,9 @@ func (x *fnTr) copyStmt(call *ast.CallExpr, pre *[]string) {
 func (x *fnTr) userCall(call *ast.CallExpr, g *ctFn, pre *[]string, used bool) []string {
 	info := x.p.info
 	args := ctCallArgs(info, call)
+	if x.t.usesReader(g) {
+		x.fail(call.Pos(), "%s reads from an io.Reader: the reader position is modelled per entry function, such a function cannot be a callee", g.key)
+	}
 	if len(args) != len(g.params) {
 		x.fail(call.Pos(), "call of %s with %d arguments for %d parameters (variadic?)", g.key, len(args), len(g.params))
 	}
@@ -2333,6 +2363,23 @@ func (x *fnTr) ret(v *ast.ReturnStmt, out *[]string) {
 	*out = append(*out, fmt.Sprintf(".ret [%s]", strings.Join(all, ", ")))
 }
 
+// usesReader: the function calls io.ReadFull itself
+func (t *ctTr) usesReader(f *ctFn) bool {
+	if f.decl == nil {
+		return false
+	}
+	found := false
+	ast.Inspect(f.decl.Body, func(n ast.Node) bool {
+		if c, ok := n.(*ast.CallExpr); ok {
+			if o := ctCalleeOf(f.pkg.info, c); o != nil && ctFuncKey(o) == "io.ReadFull" {
+				found = true
+			}
+		}
+		return true
+	})
+	return found
+}
+
 func ctLabel(T types.Type, result bool) string {
 	switch u := T.Underlying().(type) {
 	case *types.Basic:
@@ -2353,7 +2400,7 @@ func ctLabel(T types.Type, result bool) string {
 }
 
 func (t *ctTr) translate(f *ctFn) {
-	x := &fnTr{t: t, f: f, p: f.pkg, vars: map[types.Object]int{}}
+	x := &fnTr{t: t, f: f, p: f.pkg, vars: map[types.Object]int{}, rdPos: -1}
 	var out []string
 	if f.decl == nil {
 		x.al = aliasMap{}
@@ -2388,6 +2435,10 @@ func (t *ctTr) translate(f *ctFn) {
 			}
 		}
 		x.junk = x.newVar("_", nil)
+		if t.usesReader(f) {
+			x.rdPos = x.newVar("reader$pos", nil)
+			out = append(out, fmt.Sprintf(".assign %d [] (.lit 0)", x.rdPos))
+		}
 		for _, s := range f.decl.Body.List {
 			x.stmt(s, &out)
 		}
@@ -2449,6 +2500,15 @@ func genCTIR() {
 		variants: map[*ctFn]map[bool]*ctFn{}, globIdx: map[string]int{}, globInit: map[string]*ctFn{}, extIdx: map[string]int{}, usedDeclass: map[int]bool{}}
 	for _, d := range declassTable {
 		t.sites = append(t.sites, ctSite{fn: d.fn, cond: d.cond, why: d.why})
+	}
+	var extKeys []string
+	for k := range extTable {
+		extKeys = append(extKeys, k)
+	}
+	sort.Strings(extKeys)
+	for _, k := range extKeys {
+		t.extIdx[k] = len(t.exts)
+		t.exts = append(t.exts, k)
 	}
 	for _, key := range ctRoots {
 		if _, ok := t.fns[key]; ok {
@@ -2584,6 +2644,14 @@ func genCTIR() {
 	}
 	sb.WriteString("] }\n\n")
 	ctStrList(&sb, "extNames", t.exts)
+	sb.WriteString("/-- the executable model of each external call (`stdOracle extKinds tape`) -/\ndef extKinds : List ExtKind := [")
+	for i, e := range t.exts {
+		if i > 0 {
+			sb.WriteString(", ")
+		}
+		sb.WriteString("." + extTable[e].kind)
+	}
+	sb.WriteString("]\n\n")
 	for i, e := range t.exts {
 		fmt.Fprintf(&sb, "def x_%s : Nat := %d\n", ctIdent(e), i)
 	}
